@@ -1,5 +1,5 @@
 SPECIFICATION MCSpec
 CONSTANTS MaxLen = 3
-          FillBelow = 2
+          FillBelow = 3
 INVARIANTS Canonical Agreement Helpers Emit
 CHECK_DEADLOCK FALSE
